@@ -43,7 +43,14 @@ func TestVerifC25(t *testing.T) {
 			// frame interval in ticks and the matching wall-clock step
 			ticks := int64(1 + r.Intn(rate/10+2))
 			stepNs := ticks * 1000000000 / int64(rate)
-			switch r.Intn(12) {
+			switch r.Intn(14) {
+			case 12, 13: // long gap on a steady clock: minutes to hours between two frames, the frame a little late
+				secs := int64(60 + r.Intn(7200))
+				if rate > 1000000 { // fast clocks: keep the tick count within int64
+					secs = int64(1 + r.Intn(3))
+				}
+				ticks = int64(rate) * secs
+				stepNs = secs*1000000000 + int64(r.Intn(1000000))
 			case 0: // wall clock jumps forward
 				now += int64(r.Intn(20)) * 1000000000
 			case 1: // wall clock jumps backward
